@@ -1684,8 +1684,16 @@ def _x6_env(d, is32=False):
                 elf = None if f is None else WireObj("ELFFile", {k: int(getattr(f, k)) for k in ("capacity", "encoding", "machine", "flags")})
             rows.append(("_parse_elf", [((X6_EXE,), elf)]))
         if "confstr" in d:
-            rows.append(("_glibc_version_string_confstr", [((), ML._glibc_version_string_confstr())]))
-            rows.append(("_glibc_version_string_ctypes", [((), ML._glibc_version_string_ctypes())]))
+            # (x10) the two probe wrappers are translated / compared on their own (`_glibc_version_string_confstr`: src.call and
+            # Src/PlatConfstr.lean; both: the `plat.glibc` correspondence of C16); a wrapper that lets an exception escape must
+            # not stop the generator of *other* functions' cases, so it is tabulated as "no answer" here
+            def _quiet(fn):
+                try:
+                    return fn()
+                except Exception:  # noqa: BLE001
+                    return None
+            rows.append(("_glibc_version_string_confstr", [((), _quiet(ML._glibc_version_string_confstr))]))
+            rows.append(("_glibc_version_string_ctypes", [((), _quiet(ML._glibc_version_string_ctypes))]))
         if "policy" in d:
             rows.append(("import _manylinux", _x6_module_value(d["policy"])))
         import platform, sysconfig
@@ -2491,7 +2499,7 @@ X7_WRAP["_get_payload__io"] = _x9_wrap_io
 
 
 # ------------------------------------------------------------------------------------------------ x10: default_environment
-X10_ENV_FUNCS = {"default_environment"}
+X10_ENV_FUNCS = {"default_environment", "_glibc_version_string_confstr"}
 X10_WORDS = ["", "posix", "nt", "Linux", "x86_64", "6.1.0-13", "#1 SMP", "CPython", "PyPy", "cpython", "linux", "win32", "a b", "3.12.1", "é"]
 
 
@@ -2508,10 +2516,26 @@ def _g_default_environment(rng):
                  ("platform.python_implementation", [((), w())]), ("platform.python_version_tuple", [((), tup)])])]
 
 
+def _g_confstr(rng):
+    ans = rng.choice([None, "glibc 2.17", "glibc 2.31", "glibc", "", " ", "glibc 2.17 extra", "  glibc   2.5  ", "musl\t1.2.3",
+                      "glibc\n2.28", "2.17", "glibc 2.17\n", "a b c d"])
+    return [Env([("os.confstr", [(("CS_GNU_LIBC_VERSION",), ans)])])]
+
+
 def _x10_apply(env):
-    """patch the names `sys`, `os`, `platform` of packaging.markers so that default_environment sees the table"""
-    from packaging import markers as MK
+    """patch the names `sys`, `os`, `platform` of packaging.markers so that default_environment sees the table
+    (or `os` of packaging._manylinux for the confstr probe)"""
     d = dict(env)
+    if "os.confstr" in d:
+        from packaging import _manylinux as ML
+        saved_os = ML.os
+        table = dict((tuple(a), r) for a, r in d["os.confstr"])
+        ML.os = types.SimpleNamespace(confstr=lambda name: table[(name,)])
+
+        def undo_ml():
+            ML.os = saved_os
+        return undo_ml
+    from packaging import markers as MK
     saved = {k: getattr(MK, k) for k in ("sys", "os", "platform")}
     call = lambda key: (lambda: dict((tuple(a), r) for a, r in d[key])[()])
     MK.sys = types.SimpleNamespace(implementation=types.SimpleNamespace(version=d["sys.implementation.version"],
@@ -2526,7 +2550,8 @@ def _x10_apply(env):
     return undo
 
 
-FUNCS.update({"default_environment": ("packaging.markers", "default_environment", _g_default_environment)})
+FUNCS.update({"default_environment": ("packaging.markers", "default_environment", _g_default_environment),
+              "_glibc_version_string_confstr": ("packaging._manylinux", "_glibc_version_string_confstr", _g_confstr)})
 
 class _Src:
     def cases(self, rng, n, names):
